@@ -172,6 +172,10 @@ pub fn update_fields(u: u8) -> BTreeMap<String, Fv> {
         15 => {
             m.insert("attrs".into(), Fv::Map(BTreeMap::new()));
         }
+        17 => {
+            // only the NON-leading component of the (opt, opt2) composite
+            m.insert("opt2".into(), Fv::U64(7));
+        }
         16 => {
             // passes the schema, rejected by the vector index (wrong dimension) after
             // the B-tree and BM25 stages already ran: everything must be rolled back
@@ -196,6 +200,8 @@ pub fn apply_update(d: &VDoc, u: u8) -> VDoc {
             ("name", Fv::Text(s)) => d.name = s,
             ("opt", Fv::Null) => d.opt = None,
             ("opt", Fv::U64(x)) => d.opt = Some(x),
+            ("opt2", Fv::U64(x)) => d.opt2 = Some(x),
+            ("opt2", Fv::Null) => d.opt2 = None,
             ("tags", Fv::Array(vs)) => {
                 d.tags = vs
                     .into_iter()
